@@ -116,6 +116,10 @@ def run(prog: Program, rep: Report, tier: str):
     rule_guard(prog, rep)
     from .lints import rule_stable_bijections
     rule_stable_bijections(prog, rep, "C11.stable")
+    # the min_scale floor of the flows' default transformer is a NonTrainable leaf: it stays a constant only if the
+    # conditioner's parameter vector is built with NonTrainable nodes as (static) leaves
+    from .c09 import rule_constructor
+    rule_constructor(prog, rep, R="C11.conditioner")
     if tier == "thorough":
         from ..audit import audit_generic
         audit_generic(prog, rep, "C11")
